@@ -260,7 +260,10 @@ where
         let interval = region.interval();
         let start = usize::from(interval.start().unwrap_or(Position::MIN));
         let end = usize::from(interval.end().unwrap_or(Position::MAX));
-        let len = end - start + 1;
+        let len = end
+            .checked_sub(start)
+            .map(|n| n.saturating_add(1))
+            .ok_or_else(|| io::Error::new(io::ErrorKind::InvalidInput, "invalid interval"))?;
 
         let mut raw_sequence = Vec::new();
         read_sequence_limit(&mut self.inner, len, &mut raw_sequence)?;
